@@ -54,6 +54,14 @@ class Ctx:
         if len(self.samples) < limit:
             self.samples.append(x)
 
+    def vacuous(self, msg):
+        """a vacuity guard of the sample: machinery failure (exit 2) - unless violations were found, which are reported first
+        (a changed tree may well make a class of outcomes disappear; that is the violation's business, not a broken check)"""
+        if self.violations:
+            self.notes.setdefault('vacuity_notes', []).append(msg)
+            return
+        raise tlc.MachineryError(msg)
+
     def violation(self, what, replay_obj):
         os.makedirs(os.path.join(REPLAYS, self.pid), exist_ok=True)
         blob = json.dumps(replay_obj, sort_keys=True)
